@@ -164,6 +164,12 @@ func genC19(r *Rng, tier string) []*Case {
 		header := r.Chance(70)
 		n := 1 + r.Intn(7)
 		names := c19Names(r, n)
+		// a name that only differs from a trimmed/normalised form by blanks, used in every file
+		special := ""
+		if !raw && r.Chance(35) {
+			special = []string{" lead", "trail ", "\tTab", "  two", "a b", " "}[r.Intn(6)]
+			names[0] = special
+		}
 		id := func() string {
 			if raw {
 				if r.Chance(6) {
@@ -210,7 +216,10 @@ func genC19(r *Rng, tier string) []*Case {
 				}
 				rows = append(rows, row)
 			}
-			t := csvText(rows)
+			if special != "" && !seen[special+"\x00"+names[len(names)-1]] {
+				rows = append(rows, []string{special, names[len(names)-1], goodValue()}[:cols])
+			}
+			t := unquoteSpecial(csvText(rows), special, r)
 			if malformed && r.Chance(15) {
 				t += "\"unterminated,1,2\n"
 			}
@@ -233,7 +242,10 @@ func genC19(r *Rng, tier string) []*Case {
 				}
 				rows = append(rows, row)
 			}
-			return csvText(rows)
+			if special != "" {
+				rows = append(rows, []string{special, goodValue()}[:cols])
+			}
+			return unquoteSpecial(csvText(rows), special, r)
 		}
 		in := c19Cli{Header: header, Raw: raw, LT: mkMat(), Run: r.Chance(40)}
 		if r.Chance(70) {
@@ -272,8 +284,11 @@ func genC19(r *Rng, tier string) []*Case {
 				}
 				return libNames[r.Intn(len(libNames))]
 			}
-			if malformed && r.Chance(8) {
-				return []string{"-1", "0x3", "abc", "", "1.5", "+2", "99999999999999999999"}[r.Intn(7)]
+			if malformed && r.Chance(12) {
+				return []string{"-1", "0x3", "0b11", "0o7", "1_0", "abc", "", "1.5", "08", "99999999999999999999"}[r.Intn(10)]
+			}
+			if r.Chance(15) { // zero-padded and signed decimals are decimal literals
+				return []string{"%02d", "%03d", "+%d"}[r.Intn(3)][0:0] + fmt.Sprintf([]string{"%02d", "%03d", "+%d"}[r.Intn(3)], r.Intn(n+12))
 			}
 			return strconv.Itoa(r.Intn(n + 3))
 		}
@@ -282,12 +297,18 @@ func genC19(r *Rng, tier string) []*Case {
 			m := r.Intn(10)
 			ltCols := r.Pick(3, 3, 3, 2, 4)
 			seen := map[string]bool{}
+			norm := func(x string) string { // "007" and "+7" name peer 7
+				if v, err := strconv.Atoi(x); err == nil && !useNames {
+					return strconv.Itoa(v)
+				}
+				return x
+			}
 			for i := 0; i < m; i++ {
 				a, b := lid(), lid()
-				if seen[a+"\x00"+b] {
+				if seen[norm(a)+"\x00"+norm(b)] {
 					continue
 				}
-				seen[a+"\x00"+b] = true
+				seen[norm(a)+"\x00"+norm(b)] = true
 				row := []string{a, b, val(), "extra"}[:ltCols]
 				if malformed && r.Chance(6) {
 					row = row[:1+r.Intn(4)]
@@ -300,8 +321,8 @@ func genC19(r *Rng, tier string) []*Case {
 				if useNames {
 					hi = libNames[len(libNames)-1]
 				}
-				if b := lid(); !seen[hi+"\x00"+b] {
-					seen[hi+"\x00"+b] = true
+				if b := lid(); !seen[norm(hi)+"\x00"+norm(b)] {
+					seen[norm(hi)+"\x00"+norm(b)] = true
 					rows = append(rows, []string{hi, b, "0", "extra"}[:ltCols])
 				}
 			}
@@ -332,6 +353,15 @@ func genC19(r *Rng, tier string) []*Case {
 	pt := "peer_id,value\nek,50\nvm,100\n"
 	cs = append(cs, mk("CliReq", c19Cli{Header: true, LT: "from,to,value\nek,sd,100\nvm,sd,100\nek,vm,75\n", PT: &pt, Run: true}))
 	return cs
+}
+
+// unquoteSpecial writes the blank-carrying name without the quotes csv.Writer adds (an unquoted
+// field with leading or trailing blanks is legal CSV and means the same), in half of the files.
+func unquoteSpecial(t, special string, r *Rng) string {
+	if special == "" || r.Bool() {
+		return t
+	}
+	return strings.ReplaceAll(t, "\""+special+"\"", special)
 }
 
 func cliBin() string {
